@@ -219,4 +219,31 @@ theorem not_C02_Strategy_Full : ¬ C02_Strategy_Full := by
   rw [f9_leaf_witness.1, f9_leaf_witness.2] at this
   cases this
 
+/-! ## non-vacuity
+
+The hypotheses of the world-level theorems (`Hyps`, `w1Rel`, `recRel`) mention the string functions of
+`Spec/Vocab.lean`, which do not reduce in the kernel, so they cannot be instantiated by `decide` here; the
+correspondence driver evaluates them on every generated case and tags the cases that satisfy them with
+`-thm` (several hundred per quick run, see `evidence/C02.json`).  Below: the parts that can be instantiated. -/
+
+/-- a consumer-loop state satisfying `CState.Wf`, a schedule without cancellation, answer `false` -/
+example : ∃ st : CState, st.Wf ∧ st.ctxErr = false ∧
+    consumeLoop [.left, .right, .left, .right] st = some .F :=
+  ⟨{ leftQ := [.iter { items := ["group:a"] }], rightQ := ["group:c"], rightErr := false, rightSet := ["group:b"] },
+   ⟨(fun h => by cases h), (fun h => by cases h), (fun u _ hu => by cases hu)⟩, rfl, by decide⟩
+
+/-- … and one answering `true` -/
+def exHit : CState :=
+  { leftQ := [.iter { items := ["group:a", "group:b"] }], rightQ := [], rightErr := false, rightSet := ["group:b"] }
+
+example : consumeLoop [.left] exHit = some .T := by decide
+
+/-- a fast-path leaf inside an evaluation (`EvalP.fast`) with a sound fast relation -/
+example : EvalP C01.toySys (fun e o => e = .lit .tt ∧ o = .ok true false false) 25 0 [] (.lit .tt) (.ok true false false) :=
+  .fast _ _ ⟨rfl, rfl⟩
+
+example (I : Interp Nat) : FastSound C01.toySys I (fun e o => e = .lit .tt ∧ o = .ok true false false) := by
+  rintro e o ⟨rfl, rfl⟩
+  exact ⟨(fun c t h => by cases h; rfl), (fun _ => .lit rfl), (fun c h => by cases h), (fun h => by cases h)⟩
+
 end OpenFGAVerif.C02
